@@ -1,5 +1,6 @@
 import XlModel.Decode
 import XlModel.Ref
+import XlModel.RefMulti
 import XlModel.Drv.Util
 namespace XlModel.Drv.C14
 open XlModel XlModel.Decode XlModel.Drv
@@ -222,15 +223,29 @@ def stepSites (w : List String) : Option String :=
   | ["mc", h, col, row] =>
     match unhexS h, col.toInt?, row.toInt? with
     | some ref, some col, some row =>
-      -- mergeCellsParser: no rectangle for an empty ref; `ref:ref` unless exactly one ':'; rangeRefToCoordinates; sort
-      if ref.isEmpty then some (showO (fun (_ : Bool) => "ok") (mergeCellHit col row []))
-      else
-        let ref2 := if (ref.filter (· == ':')).length != 1 then ref ++ [':'] ++ ref else ref
-        match Ref.rangeRefToCoordinates ref2 with
+      -- exact redirect: C20's model of mergeCellsParser + the getter's lookup (`Ref.pathGetStringM`) names the cell
+      -- whose value is read; the sheet holds its own name in every cell of A1:F6
+      match Ref.coordinatesToCellName col row false with
+      | .error _ => some "bad-op"
+      | .ok name =>
+        match Ref.pathGetStringM [ref] name with
         | .error _ => some "E_REF"
-        | .ok q =>
-          let (a, b, c, d) := Ref.sortCoordinates q
-          some (showO (fun (_ : Bool) => "ok") (mergeCellHit col row [a, b, c, d]))
+        | .ok key =>
+          let target : List Char := match key with
+            | .ref again => again
+            | .xy c r => match Ref.coordinatesToCellName c r false with | .ok n => n | .error _ => []
+          let inGrid := match Ref.cellNameToCoordinates target with
+            | .ok (c, r) => decide (1 ≤ c) && decide (c ≤ 6) && decide (1 ≤ r) && decide (r ≤ 6)
+            | .error _ => false
+          -- the model of the rectangle test must not panic on the same rectangle
+          let rectOK : Bool :=
+            if ref.isEmpty then !(mergeCellHit col row []).isPanic
+            else
+              let ref2 := if (ref.filter (· == ':')).length != 1 then ref ++ [':'] ++ ref else ref
+              match Ref.rangeRefToCoordinates ref2 with
+              | .error _ => true
+              | .ok q => let (a, b, c, d) := Ref.sortCoordinates q; !(mergeCellHit col row [a, b, c, d]).isPanic
+          some (if !rectOK then "PANIC" else "ok " ++ (if inGrid then hexS target else "-"))
     | _, _, _ => some "bad-op"
   | ["mm", spec] =>
     let rs : Option (List Rc) := if spec = "-" then some [] else
